@@ -183,6 +183,30 @@ def h_compare(ctx, cmpop, rkind, shape, D, P, rshape=None):
         ctx.holds(f if bool(got) else f.negate(), 'x %s y == all(x0 %s y0) on this path' % (cmpop, cmpop))
 
 
+def h_compare_node(ctx, cmpop, D, P):
+    """comparisons of a traced node (recording a program with a data-dependent branch): the same
+    truth value as for the value the node holds"""
+    algopy = symx.load_algopy()
+    X = O.make_input(ctx, O.Arg('utpm', ()), 'x', D, P)
+    c = ctx.var('c')
+    for p in range(1, P):
+        X[0, p] = X[0, 0]
+    cg = algopy.CGraph()
+    fx = algopy.Function(mk_utpm(ctx, algopy, X))
+    fy = fx * 1.0 + 0.0
+    got = CMP[cmpop](fy, c)
+    cg.trace_off()
+    ctx.fact(isinstance(got, (bool, np.bool_)), 'comparison of a traced node returns a truth value (%s)' % type(got).__name__)
+    if ctx.mode == 'float':
+        ctx.fact(bool(got) == bool(CMP[cmpop](X[0, 0], c)), 'node %s c == (x0 %s c)' % (cmpop, cmpop))
+        return
+    f = CMP[cmpop](X[0, 0], c)
+    ctx.holds(f if bool(got) else f.negate(), 'node %s c == (x0 %s c) on this path' % (cmpop, cmpop))
+    # a value that IS equal (same symbol): == must be true, != false
+    same = CMP[cmpop](fy, X[0, 0])
+    ctx.fact(bool(same) == (cmpop in ('<=', '>=', '==')), 'node %s (its own value)' % cmpop)
+
+
 def h_plain_parity(ctx, what):
     """plain (non-polynomial) arguments of unusual type: the algopy-level function returns exactly
     what NumPy / SciPy returns.  Concrete data: decided on the float build."""
@@ -366,6 +390,7 @@ def units(tier, seed):
             for shape in ((), (2,), (2, 2)) if tier != 'quick' else ((), (2,)):
                 add('compare/x %s %s/%s' % (cmpop, rkind, shape), 'h_compare', cmpop=cmpop, rkind=rkind, shape=shape, D=2, P=1 if shape else 2)
         add('branch/x %s c' % cmpop, 'h_branch', cmpop=cmpop, D=2, P=2)
+        add('compare/traced node %s c' % cmpop, 'h_compare_node', cmpop=cmpop, D=2, P=2)
         for (ls, rk, rs) in [((2,), 'utpm', ()), ((), 'utpm', (3,)), ((), 'ndarray', (3,)), ((1,), 'ndarray', (2, 1))]:
             add('compare/x%s %s %s%s, broadcasting, P=2' % (ls, cmpop, rk, rs), 'h_compare', cmpop=cmpop, rkind=rk, shape=ls, D=2, P=2, rshape=rs)
     add('max/D2,P2,n3', 'h_max', D=2, P=2, n=3)
